@@ -1,4 +1,4 @@
-import AnySyncModel.Ldiff.Arith
+import AnySyncModel.Ldiff.Shape
 /-!
 # C08 — advertised range hashes depend only on current contents
 
@@ -220,6 +220,9 @@ theorem genTupleRanges_consecutive (lo hi df i : Nat) (w : Wide lo hi df) (hi' :
     (childRange lo hi df (i + 1)).1 = (childRange lo hi df i).2 + 1 ∧
     (childRange lo hi df 0).1 = lo ∧ (childRange lo hi df (df - 1)).2 = hi :=
   parts_consecutive lo hi df i w hi'
+
+/-- the range arithmetic of the model is the arithmetic regenerated from `hashrange.go` -/
+theorem arith_shape_ok : type_of% ldiffShape_ok := ldiffShape_ok
 
 /-- the canonical tree away from the changed hash is untouched (locality) -/
 theorem canon_local {D} (A : DigAlg D) (S : Splitter) (p : Params) (sl sl' : List Elem) (x : Nat)
